@@ -37,10 +37,133 @@ def parseBook (actorIdx : String → Nat) (j : Json) : R Book := do
                   locked := ← ids "locked", routes := rs, available := available.map actorIdx },
          tours := ts, actors := as, stale := st }
 
+
+/-! ## elementary-step traces: the real bookkeeping against the machine -/
+
+def insertPair (x : Nat × List Nat) : List (Nat × List Nat) → List (Nat × List Nat)
+  | [] => [x]
+  | y :: ys => if x.1 ≤ y.1 then x :: y :: ys else y :: insertPair x ys
+
+/-- canonical form of a context: every collection sorted, routes by actor -/
+def canon (c : Machine.Ctx) : List Nat × List Nat × List Nat × List (Nat × List Nat) × List Nat :=
+  (isort c.required, isort c.ignored, isort c.unassigned,
+   (c.routes.map (fun r => (r.actor, isort r.jobs))).foldr insertPair [], isort c.available)
+
+/-- the abstraction of a real context: during `process` a pending job stays listed as unassigned too
+    (`prepare_insertion_ctx` copies, it does not move), the machine lists it as required only -/
+def absCtx (c : Machine.Ctx) : Machine.Ctx :=
+  { c with unassigned := c.unassigned.filter (fun j => !c.required.contains j) }
+
+def showCanon (c : Machine.Ctx) : String := toString (repr (canon c))
+
+def handleMachine (impl : Json) : R (List (String × Json)) := do
+  let n ← natF impl "jobs"
+  let sizes ← listF asNat impl "job_sizes"
+  let actors ← listF asStr impl "actors"
+  let actorIdx (a : String) : Nat := (actors.findIdx? (· == a)).getD 1000000
+  let fleet := List.range actors.length
+  let events ← arrF impl "events"
+  let mut m : Machine.Ctx := { required := [], ignored := [], unassigned := [], locked := [], routes := [], available := [] }
+  let mut tr : Tracker := ⟨0, 0⟩
+  let mut mism : Array Json := #[]
+  let mut okInv := true
+  let mut steps := 0
+  let note (k : Nat) (ev what : String) : Json := Json.mkObj [("event", jNat k), ("ev", Json.str ev), ("what", Json.str what)]
+  let mut k := 0
+  for e in events do
+    let ev ← strF e "ev"
+    let real : Option Machine.Ctx ← (match e.getObjVal? "state" with
+      | .ok st => do let b ← parseBook actorIdx st; pure (some (absCtx b.ctx))
+      | .error _ => pure none)
+    if ev == "init" then
+      match real with
+      | some c => m := c
+      | none => pure ()
+    else if ev == "new_tracker" then
+      tr := ⟨← natF e "acts", ← natF e "routes"⟩
+    else if ev == "remove_job" then
+      let a := actorIdx (← strF e "actor")
+      let jb := (← asInt (← fld e "job"))
+      let res ← boolF e "result"
+      let lim ← boolF e "limit"
+      match routeIdx m a with
+      | none => mism := mism.push (note k ev "the model knows no route of this actor")
+      | some r =>
+        let (t', c', ok) := tryRemoveJob sizes tr m r (if jb < 0 then 1000000 else jb.toNat)
+        if ok != res then mism := mism.push (note k ev s!"result: model {ok}, real {res}")
+        if t'.isLimit != lim then mism := mism.push (note k ev s!"limit reached: model {t'.isLimit}, real {lim}")
+        tr := t'; m := c'; steps := steps + 1
+    else if ev == "remove_route" then
+      let a := actorIdx (← strF e "actor")
+      let res ← boolF e "result"
+      let lim ← boolF e "limit"
+      match routeIdx m a, real with
+      | some r, some post =>
+        let before := (m.routes[r]?.map (·.jobs)).getD []
+        let whole := !(post.routes.any (fun rt => rt.actor == a))
+        let after := ((post.routes.find? (fun rt => rt.actor == a)).map (·.jobs)).getD []
+        let removed := if whole then before else before.filter (fun x => !after.contains x)
+        match tryRemoveRoute sizes tr m r whole removed with
+        | none => mism := mism.push (note k ev s!"no behaviour of the model: whole={whole} removed={removed} budget={tr.acts}/{tr.routes}")
+        | some (t', c', ok) =>
+          if ok != res then mism := mism.push (note k ev s!"result: model {ok}, real {res}")
+          if t'.isLimit != lim then mism := mism.push (note k ev s!"limit reached: model {t'.isLimit}, real {lim}")
+          tr := t'; m := c'; steps := steps + 1
+      | _, _ => mism := mism.push (note k ev "the model knows no route of this actor")
+    else if ev == "restore" then
+      m := dropEmpty m
+      steps := steps + 1
+    else if ev == "process" then
+      let evals ← arrF e "evals"
+      let mut results : List EvalResult := []
+      -- state before every evaluation = machine state after the results applied so far
+      let mut cur : Option Machine.Ctx := Machine.step m .prepare
+      let mut i := 0
+      for x in evals do
+        let stJ ← fld x "state"
+        let seen := absCtx (← parseBook actorIdx stJ).ctx
+        match cur with
+        | some c => if canon c != canon seen then
+                      mism := mism.push (note k ev s!"before evaluation {i}: model {showCanon c}, real {showCanon seen}")
+        | none => pure ()
+        let rJ ← fld x "result"
+        let r : EvalResult ← (match rJ.getObjVal? "success" with
+          | .ok (.arr #[jj, aa]) => do pure (EvalResult.success (← asNat jj) (actorIdx (← asStr aa)))
+          | _ => pure EvalResult.failure)
+        results := results ++ [r]
+        match cur with
+        | some c =>
+          match applyResult c r with
+          | some c' => cur := some c'
+          | none =>
+            mism := mism.push (note k ev s!"result {i} is no step of the model")
+            cur := none
+        | none => pure ()
+        i := i + 1
+      match processWith m results with
+      | some c' => m := c'
+      | none => mism := mism.push (note k ev "the results are no behaviour of the model")
+      steps := steps + results.length + 2
+    -- after every event the machine state is the (abstracted) real state
+    match real with
+    | some c =>
+      if ev != "init" && canon m != canon c then
+        mism := mism.push (note k ev s!"state after the call: model {showCanon m}, real {showCanon c}")
+        m := c      -- resynchronise so that one divergence is reported once
+      if !(partB n c) || !(regB fleet c) then okInv := false
+    | none => pure ()
+    k := k + 1
+  return [("model", Json.mkObj [("agree", Json.bool mism.isEmpty), ("mismatches", Json.arr (mism.extract 0 5))]),
+          ("oracle", Json.mkObj [("machine_states_consistent", Json.bool okInv)]),
+          ("info", Json.mkObj [("machine_steps", jNat steps), ("events", jNat events.length)])]
+
 def handle (j : Json) : R (List (String × Json)) := do
   let impl ← fld j "impl"
   match impl.getObjVal? "error" with
   | .ok e => return [("model", Json.null), ("oracle", Json.mkObj []), ("info", Json.mkObj [("skipped", e)])]
+  | .error _ => pure ()
+  match impl.getObjVal? "events" with
+  | .ok _ => return (← handleMachine impl)
   | .error _ => pure ()
   let spJ := match impl.getObjVal? "sp_final" with
     | .ok v => if v.isNull then fldD j "sp" Json.null else v
